@@ -8,6 +8,8 @@ Ok(op) == [op |-> op, when |-> "afterSuccess"]
 Blocked == { [op |-> "read", when |-> "whileBlocked"], [op |-> "read", when |-> "midMessage"],
              [op |-> "write", when |-> "whileBlocked"], [op |-> "writer", when |-> "whileBlocked"],
              [op |-> "write", when |-> "lockWait"], [op |-> "ping", when |-> "pongWait"],
+             \* the read is blocked WRITING: it answers a ping of the peer, and the peer does not drain the pong
+             [op |-> "read", when |-> "pongWriteBlocked"],
              \* the read is blocked in the middle of a frame HEADER of which k bytes (of a header with a 64-bit length) arrived
              \* in the same transport read as the previous message and are already buffered
              [op |-> "read", when |-> "partialHeader2"], [op |-> "read", when |-> "partialHeader9"], [op |-> "read", when |-> "partialHeader13"],
